@@ -45,6 +45,8 @@ import (
 //              k  the context of the oldest request inside the write path is cancelled (the client went
 //                 away / the server gave up on it): it keeps its slot until the handler returns
 //              f  the oldest request inside the write path is released and completes
+//              r  the limits are reloaded: Limiter.loadConfig runs (as the reloader does when the limits
+//                 file changes; same max_concurrency) while the requests above are queued or in flight
 //       cap 0: the limits configuration sets no max_concurrency: the limiter keeps gate.NewNoop()
 //   answer: per step `running.waiting.gauge.total` at quiescence (gauge / total = the gate's in-flight gauge and total counter), `,`-joined, then ` p=<handler panics> max=<max requests inside the write path>`
 //
@@ -80,6 +82,7 @@ type gateReq struct {
 	entered  bool
 	released bool
 	killed   bool
+	epoch    int // number of limits reloads before the request arrived
 	returned bool
 	status   string
 	release  chan struct{}
@@ -96,6 +99,9 @@ type gateEnv struct {
 	reqs    []*gateReq
 	inPeer  int
 	maxPeer int
+	epoch   int         // limits reloads so far
+	inEpoch map[int]int // requests inside the write path, per epoch of arrival
+	maxEp   int         // most requests of one epoch inside the write path at once
 	panics  []string
 	wake    chan struct{}
 }
@@ -134,11 +140,19 @@ func (p *gatePeer) RemoteWrite(ctx context.Context, in *storepb.WriteRequest, _ 
 	if g.inPeer > g.maxPeer {
 		g.maxPeer = g.inPeer
 	}
+	if g.inEpoch == nil {
+		g.inEpoch = map[int]int{}
+	}
+	g.inEpoch[r.epoch]++
+	if g.inEpoch[r.epoch] > g.maxEp {
+		g.maxEp = g.inEpoch[r.epoch]
+	}
 	g.mu.Unlock()
 	g.pulse()
 	<-r.release
 	g.mu.Lock()
 	g.inPeer--
+	g.inEpoch[r.epoch]--
 	g.mu.Unlock()
 	return &storepb.WriteResponse{}, nil
 }
@@ -214,7 +228,7 @@ func (g *gateEnv) launch(cancelled bool) *gateReq { return g.launchOn(cancelled,
 func (g *gateEnv) launchOn(cancelled, otlp bool, barrier <-chan struct{}) *gateReq {
 	ctx, cancel := context.WithCancel(context.Background())
 	g.mu.Lock()
-	r := &gateReq{id: len(g.reqs), cancel: cancel, release: make(chan struct{})}
+	r := &gateReq{id: len(g.reqs), cancel: cancel, release: make(chan struct{}), epoch: g.epoch}
 	g.reqs = append(g.reqs, r)
 	g.mu.Unlock()
 	if cancelled {
@@ -484,7 +498,7 @@ func execC24(c *hlib.Ctx, tok []string) string {
 		return "bad-op"
 	}
 	for _, s := range steps {
-		if s != "a" && s != "x" && s != "c" && s != "f" && s != "k" {
+		if s != "a" && s != "x" && s != "c" && s != "f" && s != "k" && s != "r" {
 			return "bad-op"
 		}
 	}
@@ -509,6 +523,13 @@ func execC24(c *hlib.Ctx, tok []string) string {
 				r.cancel()
 				stuck = stuck || !g.waitReturned(r)
 			}
+		case "r":
+			if err := receive.VerifLoadLimits(g.limiter); err != nil {
+				return "reload-error:" + err.Error()
+			}
+			g.mu.Lock()
+			g.epoch++
+			g.mu.Unlock()
 		case "k":
 			if r := g.oldest(func(r *gateReq) bool { return r.entered && !r.released && !r.killed }); r != nil {
 				g.mu.Lock()
@@ -533,7 +554,7 @@ func execC24(c *hlib.Ctx, tok []string) string {
 		}
 	}
 	g.mu.Lock()
-	panics, maxPeer := len(g.panics), g.maxPeer
+	panics, maxPeer := len(g.panics), g.maxEp
 	pmsg := strings.Join(g.panics, "; ")
 	statuses := map[string]int{}
 	for _, r := range g.reqs {
@@ -553,7 +574,7 @@ func execC24(c *hlib.Ctx, tok []string) string {
 		return strings.Join(out, ",") + " stuck"
 	}
 	if capacity >= 1 && maxPeer > capacity {
-		c.Violation("gate-exceeded", fmt.Sprintf("max_concurrency %d but %d requests were inside the write path at the same time", capacity, maxPeer))
+		c.Violation("gate-exceeded", fmt.Sprintf("max_concurrency %d but %d requests admitted under one configuration were inside the write path at the same time", capacity, maxPeer))
 	}
 	if panics > 0 {
 		c.Violation("gate-done-panic", fmt.Sprintf("%d request handler(s) panicked: %s", panics, pmsg))
@@ -574,7 +595,7 @@ func genC24(c *hlib.Ctx) {
 		if len(prefix) == n {
 			return
 		}
-		for _, s := range []string{"a", "c", "f", "x", "k"} {
+		for _, s := range []string{"a", "c", "f", "x", "k", "r"} {
 			rec(append(append([]string(nil), prefix...), s), n, emit)
 		}
 	}
@@ -590,10 +611,10 @@ func genC24(c *hlib.Ctx) {
 					return
 				}
 				// keep the quick tier small: sample the exhaustive set
-				if c.Tier == "quick" && !r.Chance(1, 12) {
+				if c.Tier == "quick" && !r.Chance(1, 24) {
 					return
 				}
-				if c.Tier != "quick" && !r.Chance(1, 2) {
+				if c.Tier != "quick" && !r.Chance(1, 5) {
 					return
 				}
 				c.Count(fmt.Sprintf("exhaustive:%s:cap%d:len%d", entry, capacity, len(p)))
@@ -622,7 +643,7 @@ func genC24(c *hlib.Ctx) {
 		n := r.Range(6, 16)
 		p := make([]string, n)
 		for i := range p {
-			switch x := r.Intn(11); {
+			switch x := r.Intn(13); {
 			case x < 5:
 				p[i] = "a"
 			case x < 7:
@@ -631,8 +652,10 @@ func genC24(c *hlib.Ctx) {
 				p[i] = "f"
 			case x < 10:
 				p[i] = "x"
-			default:
+			case x < 11:
 				p[i] = "k"
+			default:
+				p[i] = "r" // limits reload while requests are queued / in flight
 			}
 		}
 		p[0] = "a"
